@@ -16,6 +16,7 @@
 -/
 import Purr.Lemmas.OrderL
 import Purr.Lemmas.DfsL
+import Purr.Lemmas.DenoteFirstL
 import Purr.Lemmas.StereoL
 import Purr.Lemmas.BuilderL
 import Purr.Props.C01
@@ -62,6 +63,67 @@ theorem written_order (g : Graph) (hw : WellFormed g) (es : List (Event × Nat))
   obtain ⟨t, g', h1, h2, h3, h4⟩ := substituent_order g hw es ord h hne
   have hd : g' = Spec.denote (read t).1 := build_eq_denote _ g' h3
   exact ⟨t, h1, h2, by rw [← hd]; exact h4⟩
+
+/-- THE BOND WRITTEN FIRST IS THE ARRIVAL BOND (no builder in the statement).  In the written text, take any atom that is
+    not the first of its component — the annotation of the text's own events (`Spec.annotate`) shows it created by an
+    `extend` written while atom `hd` was the head, i.e. the text attaches it to `hd`: the traversal arrived from there.
+    Then the original bond list of that atom splits as `pre ++ back :: post` where `back` is its one bond to the atom
+    written as `hd`, and what the text denotes is `back` first, then `pre ++ post` in the original order. -/
+theorem arrival_bond_is_the_attachment (g : Graph) (hw : WellFormed g) (es : List (Event × Nat)) (ord : List Nat)
+    (h : walkRecL g = some (es, ord)) (hne : es ≠ []) :
+    ∃ t, write? (es.map (·.1)) = some t ∧ (read t).2 = .ok ∧
+      ∀ x atomX, g[x]? = some atomX → ∀ (j : Nat) (b : BondKind) (k : AtomKind) (hd : Nat),
+        (Spec.annotate [] 0 (read t).1)[j]? = some (⟨.extend b k, some hd, pos ord x⟩ : Spec.Ann) →
+        ∃ atom' pre back post, (Spec.denote (read t).1)[pos ord x]? = some atom' ∧ atomX.bonds = pre ++ back :: post ∧
+          pos ord back.tid = hd ∧ (∀ o ∈ pre, o.tid ≠ back.tid) ∧ (∀ o ∈ post, o.tid ≠ back.tid) ∧
+          atom'.bonds = (back :: (pre ++ post)).map (fun b => ⟨b.kind, pos ord b.tid⟩) := by
+  obtain ⟨t, h1, h2, h3⟩ := written_order g hw es ord h hne
+  refine ⟨t, h1, h2, ?_⟩
+  intro x atomX hgx j b k hd hA
+  obtain ⟨atom', hd', hshape⟩ := h3 x atomX hgx
+  have hfirst := denote_first_bond (read t).1 j b k hd (pos ord x) hA atom' hd'
+  rcases hshape with hsame | ⟨pre, back, post, hsplit, hpre, hpost, hmoved⟩
+  · cases hbs : atomX.bonds with
+    | nil => rw [hsame, hbs] at hfirst; cases hfirst
+    | cons b0 rest =>
+      rw [hsame, hbs] at hfirst
+      simp only [List.map_cons, List.head?_cons, Option.some.injEq, Bond.mk.injEq] at hfirst
+      have huniq : ∀ o ∈ rest, o.tid ≠ b0.tid := by
+        obtain ⟨_, hone, _⟩ := hw x atomX hgx b0 (by rw [hbs]; simp)
+        rw [hbs] at hone
+        unfold bondsTo at hone
+        rw [List.filter_cons] at hone
+        simp only [beq_self_eq_true, if_true, List.length_cons] at hone
+        intro o ho heq
+        have : o ∈ rest.filter (fun b => b.tid == b0.tid) := List.mem_filter.mpr ⟨ho, by simp [heq]⟩
+        have hlen : (rest.filter (fun b => b.tid == b0.tid)).length = 0 := by omega
+        rw [List.length_eq_zero_iff] at hlen
+        rw [hlen] at this; cases this
+      exact ⟨atom', [], b0, rest, hd', by simp, hfirst.2, by simp, huniq, by rw [hsame, hbs]; simp⟩
+  · rw [hmoved] at hfirst
+    simp only [List.map_cons, List.head?_cons, Option.some.injEq, Bond.mk.injEq] at hfirst
+    exact ⟨atom', pre, back, post, hd', hsplit, hfirst.2, hpre, hpost, hmoved⟩
+
+/-- non-vacuity of `arrival_bond_is_the_attachment`: for the two-atom graph `0 – 1` the premise about the written text is
+    met by atom 1 (attached to head 0), and the theorem yields its bond list with the bond to atom 0 first -/
+example : ∃ (atom' : Atom) (pre : List Bond) (back : Bond) (post : List Bond), [⟨AtomKind.aliphatic .C, [⟨BondKind.elided, 1⟩]⟩, ⟨AtomKind.aliphatic .C, [⟨BondKind.elided, 0⟩]⟩][1]? = some (⟨AtomKind.aliphatic .C, pre ++ back :: post⟩ : Atom) ∧
+    back.tid = 0 ∧ atom'.bonds = (back :: (pre ++ post)).map (fun b => (⟨b.kind, pos [0, 1] b.tid⟩ : Bond)) := by
+  let g : Graph := [⟨.aliphatic .C, [⟨.elided, 1⟩]⟩, ⟨.aliphatic .C, [⟨.elided, 0⟩]⟩]
+  have hwalk : walkRecL g = some ([(.root (.aliphatic .C), 0), (.extend .elided (.aliphatic .C), 1)], [0, 1]) := by decide
+  have hw : WellFormed g := (C11.validate_iff_wellformed g).mp (by decide)
+  obtain ⟨t, hwr, _, hall⟩ := arrival_bond_is_the_attachment g hw _ _ hwalk (by simp)
+  obtain ⟨t', hwr', hrd⟩ := C09.read_write [.root (.aliphatic .C), .extend .elided (.aliphatic .C)] ⟨2, rfl⟩
+  have htt : t = t' := by
+    have : write? (List.map (fun x => x.1) [((Event.root (.aliphatic .C), 0) : Event × Nat), (.extend .elided (.aliphatic .C), 1)]) = some t' := hwr'
+    rw [hwr] at this; exact Option.some.inj this
+  subst htt
+  obtain ⟨atom', pre, back, post, _, hsplit, hpos, _, _, hb⟩ :=
+    hall 1 ⟨.aliphatic .C, [⟨.elided, 0⟩]⟩ rfl 1 .elided (.aliphatic .C) 0 (by rw [hrd]; rfl)
+  refine ⟨atom', pre, back, post, by simp only at hsplit; rw [← hsplit]; rfl, ?_, hb⟩
+  -- `pos [0, 1] back.tid = 0` and `back` is the only bond, to atom 0
+  cases pre with
+  | nil => simp at hsplit; rw [← hsplit.1]
+  | cons p ps => simp at hsplit
 
 /-- STAGE 2 (subsumed by stage 3): the forest case -/
 theorem substituent_order_forest (g : Graph) (hw : WellFormed g) (es : List (Event × Nat)) (ord : List Nat)
@@ -234,6 +296,30 @@ theorem visit_order_is_depth_first (g : Graph) (es : List (Event × Nat)) (ord :
       exact dfsFrom_mono_le g hle _ _ _ (comps_dfs g _ _ _ _ _ _ _ hc)
     · have := comps_labels g _ _ _ _ _ _ _ hc
       simpa using this.symm
+
+/-- … with ANY amount of fuel on which the textbook search finishes, it finishes with that order (fuel only decides
+    between an answer and none) -/
+theorem visit_order_unique (g : Graph) (es : List (Event × Nat)) (ord : List Nat) (h : walkRecL g = some (es, ord))
+    (fuel : Nat) (o : List Nat) (ho : Spec.dfsOrder g fuel = some o) : o = ord := by
+  have h1 := (visit_order_is_depth_first g es ord h).1 (max fuel (recFuel g)) (Nat.le_max_right _ _)
+  have h2 : Spec.dfsOrder g (max fuel (recFuel g)) = some o := dfsFrom_mono_le g (Nat.le_max_left _ _) _ _ _ ho
+  rw [h1] at h2
+  exact (Option.some.inj h2).symm
+
+/-- THE SAME ABOUT `walk` ITSELF (the loop mirroring src/walk/walk.rs): the order under which `substituent_order_walk`
+    renumbers the atoms is not just some duplicate-free enumeration — it is the textbook depth-first preorder -/
+theorem substituent_order_walk_depth_first (g : Graph) (hw : WellFormed g) (hok : (walk g).2 = .ok) (hne : (walk g).1 ≠ []) :
+    ∃ t g' ord, Spec.dfsOrder g (recFuel g) = some ord ∧
+      write? (walk g).1 = some t ∧ (read t).2 = .ok ∧ build? (read t).1 = some (.ok g') ∧
+      ∀ x atomX, g[x]? = some atomX → ∃ atom', g'[pos ord x]? = some atom' ∧
+        (atom'.bonds = atomX.bonds.map (fun b => ⟨b.kind, pos ord b.tid⟩) ∨
+         ∃ pre back post, atomX.bonds = pre ++ back :: post ∧ (∀ o ∈ pre, o.tid ≠ back.tid) ∧
+           (∀ o ∈ post, o.tid ≠ back.tid) ∧
+           atom'.bonds = (back :: (pre ++ post)).map (fun b => ⟨b.kind, pos ord b.tid⟩)) := by
+  obtain ⟨es, ord, hr, hev⟩ := walkRec_of_walk_ok g hw hok
+  have hne' : es ≠ [] := by intro e; subst e; simp at hev; exact hne hev
+  obtain ⟨t, g', h1, h2, h3, h4⟩ := substituent_order g hw es ord hr hne'
+  exact ⟨t, g', ord, (visit_order_is_depth_first g es ord hr).1 _ (Nat.le_refl _), by rw [← hev]; exact h1, h2, h3, h4⟩
 
 /-- non-vacuity, and the order on a small case: in `0–1, 0–2, 1–3` with atom 0's list `[2, 1]` the order is 0, 2, 1, 3 -/
 example : Spec.dfsOrder [⟨.star, [⟨.elided, 2⟩, ⟨.elided, 1⟩]⟩, ⟨.star, [⟨.elided, 0⟩, ⟨.elided, 3⟩]⟩, ⟨.star, [⟨.elided, 0⟩]⟩,
